@@ -100,9 +100,9 @@ func confTags(p *Loaded, verif string) []*Obligation {
 			case "string":
 				ok = isB && b.Kind() == types.String
 			case "int":
-				ok = isB && b.Info()&types.IsInteger != 0 && b.Info()&types.IsUnsigned == 0
+				ok = isB && b.Info()&types.IsInteger != 0 && b.Info()&types.IsUnsigned == 0 && wideInt(b)
 			case "uint":
-				ok = isB && b.Info()&types.IsInteger != 0
+				ok = isB && b.Info()&types.IsInteger != 0 && wideInt(b)
 			}
 			detail = fmt.Sprintf("field %s has type %s, documented kind %s", fs[0].Name(), fs[0].Type(), spec.Keys[k])
 		}
@@ -500,4 +500,15 @@ func wideIntLB0(p *Loaded) []*Obligation {
 	return []*Obligation{
 		kObl(fn, "wide-integer-ranges-start-at-0", len(bad) == 0 && wide > 0, fmt.Sprintf("%d constrained INTEGER fields, %d with a range above 64K; lower bound not 0: %v", n, wide, bad)),
 	}
+}
+
+// wideInt: an integer type of at least 32 bits — every documented numeric key (ports, counts, SST
+// 0..255, bit length) fits; a narrower field makes yaml.v2 refuse legal values, which GetConfiguration
+// does not report.
+func wideInt(b *types.Basic) bool {
+	switch b.Kind() {
+	case types.Int, types.Int32, types.Int64, types.Uint, types.Uint32, types.Uint64, types.Uintptr:
+		return true
+	}
+	return false
 }
